@@ -391,9 +391,10 @@ def cases(rng, n, kinds=None):
         # apart by the velocity alone
         for cls in ('IGEOS_Solver', 'GenEOS_Solver'):
             P = riemann_params(rng)
-            v = r4(rng, 0.3, 1.2) * (1 if rng.random() < 0.7 else -0.4)
-            P.update({'rr': P['rl'], 'pr': P['pl'], 'gr': P['gl'], 'ul': v, 'ur': -v})
-            out.append({'kind': 'riemann', 'class': cls, 'params': P, 't': r4(rng, 0.05, 0.3), 'symmetric': True})
+            v = r4(rng, 0.3, 1.2)
+            for sgn in (1.0, -0.4):                     # colliding (two shocks) and separating (two fans)
+                Q = dict(P); Q.update({'rr': P['rl'], 'pr': P['pl'], 'gr': P['gl'], 'ul': sgn * v, 'ur': -sgn * v})
+                out.append({'kind': 'riemann', 'class': cls, 'params': Q, 't': r4(rng, 0.05, 0.3), 'symmetric': True})
         for _k in range(3):
             out.append({'kind': 'riemann', 'class': 'IGEOS_Solver', 'params': threshold_problem(rng), 't': r4(rng, 0.05, 0.2), 'near_threshold': True})
         D = r4(rng, 0.3, 2)
